@@ -96,33 +96,6 @@ Definition C26_oracle_ok (c : C26_case) : bool :=
          (* a panic is only tolerated when some filter is outside the supported forms *)
   end.
 
-(* known classes, by reader: 2 = the expression names a parameter other than %0 (the code always
-   uses parameter 0); 1 = some arrival group has a rejected sample followed by a passing one *)
-Definition reader_class (groups : list (list change)) (flt : option cft) : N :=
-  match flt with
-  | None => 0%N
-  | Some f =>
-      match spec_index f with
-      | Some O => if lossy flt groups then 1%N else 0%N
-      | Some _ => 2%N
-      | None => 0%N
-      end
-  end.
-
-(* classes of the readers that the oracle rejects; the case is a known finding only if EVERY
-   rejected reader falls into a class *)
-Fixpoint rejected_classes (groups : list (list change)) (fs : list (option cft)) (obs : list (list item)) : list N :=
-  match fs, obs with
-  | f :: fs', o :: obs' => if reader_ok groups f o then rejected_classes groups fs' obs'
-                           else reader_class groups f :: rejected_classes groups fs' obs'
-  | _, _ => []
-  end.
-
-Definition C26_known (c : C26_case) : N :=
-  match c_out c with
-  | Ok obs => let l := rejected_classes (c_groups c) (c_readers c) obs in
-              if existsb (N.eqb 0) l then 0%N else hd 0%N l
-  | _ => (* worker panicked although every filter is in the domain: only class 2 explains it
-            (parameter 0 is parsed instead of the named one) *)
-         if existsb (fun f => N.eqb (reader_class (c_groups c) f) 2%N) (c_readers c) then 2%N else 0%N
-  end.
+(* no known classes: the two defects once recorded here (batch dropped after a rejected sample,
+   parameter index ignored) are repaired in /repo (c4677f2, 88b96b4) *)
+Definition C26_known (c : C26_case) : N := 0%N.
